@@ -415,11 +415,15 @@ func newLightClientAttackEvidence(conflicted, trusted, common *types.LightBlock)
 		ev.CommonHeight = common.Height
 		ev.Timestamp = common.Time
 		ev.TotalVotingPower = common.ValidatorSet.TotalVotingPower()
+		ev.ByzantineValidators = ev.GetByzantineValidators(common.ValidatorSet, trusted.SignedHeader)
 	} else {
 		ev.CommonHeight = trusted.Height
 		ev.Timestamp = trusted.Time
 		ev.TotalVotingPower = trusted.ValidatorSet.TotalVotingPower()
+		// the byzantine validators are reported as members of the validator set of the evidence's
+		// height (CommonHeight), which is what a full node looks them up in when it verifies the
+		// evidence: here the height of the trusted block, not that of the common block
+		ev.ByzantineValidators = ev.GetByzantineValidators(trusted.ValidatorSet, trusted.SignedHeader)
 	}
-	ev.ByzantineValidators = ev.GetByzantineValidators(common.ValidatorSet, trusted.SignedHeader)
 	return ev
 }
